@@ -51,6 +51,7 @@ def comp : Component where
       | ["exit", i] => do
         let i ← i.toNat?
         pure (ts, match s.threads[i]? with | some .exited => "ok" | _ => s!"not-exited model {showSt s}")
+      | ["unit", _] => some (ts, "ok")      -- what one clock unit stands for in the real run: the model is unit-free
       | ["start", i, id] => do
         let i ← i.toNat?; let id ← id.toNat?
         pure (ts, match s.threads[i]? with
